@@ -1047,6 +1047,25 @@ class Interp:
                                 return None
                             env[lv.b] = o.w(states=ss)
                     return st
+            # name in/not in (<name constants>): a lookup table's keys written out
+            if isinstance(op, (ast.In, ast.NotIn)) and isinstance(lv, Name) and isinstance(l, ast.Name) and isinstance(r, (ast.Tuple, ast.List, ast.Set)) and r.elts:
+                consts = []
+                for x_ in r.elts:
+                    if isinstance(x_, ast.Constant) and isinstance(x_.value, str):
+                        consts.append(x_.value)
+                    elif isinstance(x_, ast.Attribute) and x_.attr == 'value' and enum_member(x_.value, 'AttributeType'):
+                        consts.append(self.attr_type_value(enum_member(x_.value, 'AttributeType')[1]))
+                    else:
+                        consts = None
+                        break
+                if consts is not None:
+                    member = isinstance(op, ast.In) == pol
+                    cs = set(consts)
+                    names = frozenset(x for x in lv.names if (x in cs) == member or (x == UNK and not member))
+                    if not names:
+                        return None
+                    env[l.id] = Name(names, lv.client)
+                    return st
             # name in/not in policy.get_all_attribute_names(): membership in the rule table
             if isinstance(op, (ast.In, ast.NotIn)) and isinstance(lv, Name) and isinstance(l, ast.Name) and isinstance(rv, V) and rv.tag == 'list' \
                     and isinstance(rv.a, Name) and rv.a.names == ai.allnames:
